@@ -51,9 +51,6 @@ static int c04_rl_elementAt(KSI_LIST(KSI_HashChainLink) *l, size_t pos, KSI_Hash
 }
 /* hook of KSI_DataHash_equals (env/ghost_c04_world.h) */
 static void c04_rl_on_compare(const KSI_DataHash *left, const KSI_DataHash *right, int verdict) {
-#ifdef C04_DEBUG_REACH
-	REACH("debug: compare reached");
-#endif
 	__CPROVER_assert(left == C04_H(C04_H_LINK_A) && right == C04_H(C04_H_LINK_B), "CAL-04: a link of the signature's chain is compared with a link of the extender's chain");
 	__CPROVER_assert(g_c04_rl.a_last_wanted && g_c04_rl.b_last_wanted, "CAL-04: both compared links are right links");
 	__CPROVER_assert(spec_rl_may_compare(&g_c04_rl.rl), "CAL-04: the k-th right link of A is compared with the k-th right link of B");
